@@ -92,6 +92,9 @@ def run(repo, rep, tier):
                         "index ranges from a symbolic interval analysis (polynomials in mk, mth, ihmax) over all "
                         "assignments, dominating conditions, counted loops, stored-value ranges and call bindings")
     an = native_bounds(repo, rep, "R-C20-5")
+    rep.rule("R-C20-8", "(shared with C18) partition() never reaches its exit(EXIT_FAILURE) / a stale neighbour table: the shape guard of "
+                        "partinit implies both extents unchanged and the work buffers are re-initialised per call")
+    cnative.statics(repo, rep, "R-C20-8")
     python_lints(repo, rep)
     wrapper_preconditions(repo, rep)
     rep.trust("clang 14 JSON AST; exact polynomial comparisons with all symbols >= 1; Python ast")
